@@ -1,0 +1,30 @@
+//go:build verif
+
+// Copyright Istio Authors
+//
+// Licensed under the Apache License, Version 2.0 (the "License");
+// you may not use this file except in compliance with the License.
+// You may obtain a copy of the License at
+//
+//     http://www.apache.org/licenses/LICENSE-2.0
+//
+// Unless required by applicable law or agreed to in writing, software
+// distributed under the License is distributed on an "AS IS" BASIS,
+// WITHOUT WARRANTIES OR CONDITIONS OF ANY KIND, either express or implied.
+// See the License for the specific language governing permissions and
+// limitations under the License.
+
+package ca
+
+// Entry point for the verification harness (property C09). Add-only, no behaviour change;
+// the file is compiled only with the build tag `verif`.
+
+// VerifCheckAndRotateRootCert runs one check of the self-signed root cert rotator - what its ticker
+// does every CheckInterval - synchronously. false: this CA has no rotator.
+func (ca *IstioCA) VerifCheckAndRotateRootCert() bool {
+	if ca.rootCertRotator == nil {
+		return false
+	}
+	ca.rootCertRotator.checkAndRotateRootCert()
+	return true
+}
